@@ -120,6 +120,7 @@ func (r *rdbdriver) findMapInSortedData(domain, mtype []byte, context Context) (
 	copy(k[len(mtype):], reversedZone)
 
 	prefixLen := len(mtype)
+	rootTried := false
 
 	for {
 		copy(k[len(k)-len(suffix):], suffix)
@@ -144,9 +145,19 @@ func (r *rdbdriver) findMapInSortedData(domain, mtype []byte, context Context) (
 
 		foundLabel := foundKey[prefixLen : len(foundKey)-1]
 		length := findCommonLongestPrefix(reversedZone, foundLabel)
-		if length == 0 {
+		if length >= len(reversedZone) {
+			// the closest key is the wildcard entry of the very name we look up; it covers
+			// the names below it only, so the search goes on at the parent name
+			length = 0
+			for next := 0; reversedZone[next] != 0; next += int(reversedZone[next]) + 1 {
+				length = next
+			}
+		}
+		if rootTried || len(reversedZone) == 1 {
+			// the root has no parent, and the wildcard of the root is the last candidate
 			break
 		}
+		rootTried = length == 0
 
 		// k already has necessary data - we just need to cut it at proper point
 		k[prefixLen+length] = 0
